@@ -13,6 +13,21 @@ COMMON_NOTE = ("Trusted: Lean 4.33.0 kernel; axioms per theorem as printed by #p
 
 # property id -> dict(level, text, technique, note, design_ref)
 CLAIMED = {
+    "C13": dict(
+        level="proof",
+        text="Lean theorems over exact natural-number arithmetic for binary64 (N b = magnitude of bit pattern b in units of 2^-1074, M b = "
+             "midpoint above b): N_step / N_mono / M_strict (bit patterns are ordered like the values, across every exponent boundary, from "
+             "subnormals to +inf), rounding_unique (any real - in particular any decimal numeral - is accepted by the round-to-nearest-even "
+             "relation `accepts` for at most one double, so a text that passes the toString check for x and a number that passes the parse "
+             "check for that text are the same double: Number(String(x)) = x), accepts_convex, no_coarser_on_grid (if the two neighbouring "
+             "multiples of the coarser decimal unit do not round to x then no shorter numeral does: the shortest-digits check needs only two "
+             "probes), radix_roundtrip / digits_lt (parseInt(n.toString(r), r) = n for every n and radix). The conversion algorithms are external "
+             "crates, so the tie is a verified result checker: every engine result (String(x), Number(text), literals, parseFloat, parseInt, "
+             "toString(radix) on integers, toFixed/toExponential/toPrecision) on generated hard inputs (exact midpoints with up to 770 digits and "
+             "their neighbours, layout boundaries, subnormals) is decided by the Lean driver with accepts / shortestOk / closestOk.",
+        technique="Lean 4 proofs over an exact-arithmetic model of binary64 rounding + Lean-evaluated result checking of every engine conversion (correspondence) + ECMA-262 layout oracle",
+        note="ryu-js / fast_float2 are checked per result, not verified; non-integer radix output and parseInt beyond 20 digits are implementation-approximated by the spec and excluded. Known finding C13-tofixed-small (ryu-js).",
+    ),
     "C08": dict(
         level="proof",
         text="Lean theorems: steps_bounded / work_bounded (with a ranking certificate accepted by the executable rankOk, any control-flow "
